@@ -118,10 +118,36 @@ fn proj(o: &Outcome, heap: &Heap) -> J {
     }
 }
 
+/// "ieee" events: one arithmetic operator on two doubles, scalar and through a one-element broadcast, against the host's
+/// IEEE-754 operation; first the whole grid of special operands (zeros of both signs, infinities, NaN, 0.5, 2, -1, ...)
+fn ieee_events(r: &mut Rng, n: usize) -> Vec<J> {
+    const SPECIAL: &[f64] = &[0.0, -0.0, f64::INFINITY, f64::NEG_INFINITY, f64::NAN, 1.0, -1.0, 0.5, -0.5, 2.0, 3.0, -2.0, 1e308, 5e-324, 0.1];
+    let bits = |x: f64| if x.is_nan() { "nan".to_string() } else { mv::hex(x) };
+    let obs = |o: &Outcome| match o { Outcome::Ok(blots_core::values::Value::Number(v)) => bits(*v), Outcome::Ok(_) => "nonnumber".into(), o => o.class().to_string() };
+    let mut pairs: Vec<(f64, f64)> = vec![];
+    for a in SPECIAL { for b in SPECIAL { pairs.push((*a, *b)); } }
+    for _ in 0..n { pairs.push((rand_double(r), rand_double(r))); }
+    let mut out = vec![];
+    let s = Session::new();
+    for (x, y) in pairs {
+        for (name, sym) in [("add", "+"), ("sub", "-"), ("mul", "*"), ("div", "/"), ("mod", "%"), ("pow", "^")] {
+            let want = match name { "add" => x + y, "sub" => x - y, "mul" => x * y, "div" => x / y, "mod" => x % y, _ => x.powf(y) };
+            let (xs, ys) = (mv::num_src(x), mv::num_src(y));
+            let scalar = obs(&s.eval(&format!("{xs} {sym} {ys}")));
+            let bl = obs(&s.eval(&format!("([{xs}] {sym} {ys})[0]")));
+            let br = obs(&s.eval(&format!("({xs} {sym} [{ys}])[0]")));
+            let bb = obs(&s.eval(&format!("([{xs}] {sym} [{ys}])[0]")));
+            out.push(json!({"ev":"ieee","op":name,"want":bits(want),"scalar":scalar,"list_scalar":bl,"scalar_list":br,"list_list":bb,"src":format!("{xs} {sym} {ys}")}));
+        }
+        crate::ev::clear_stats();
+    }
+    out
+}
+
 pub fn record(seed: u64, n: usize) -> Vec<J> {
     let mut r = Rng::new(seed);
     let lift = Lift::Id;
-    let mut out = vec![];
+    let mut out = ieee_events(&mut r, n / 10);
     for i in 0..n {
         let s = Session::new();
         let op = OPS[r.below(OPS.len() as u64) as usize];
